@@ -226,3 +226,52 @@ Definition opticom2_matrix (preds : list (list Qc)) : list (list Qc) := transpos
 Definition opticom2_certified (preds : list (list Qc)) (vy raw : list Qc) (tol : Qc) : bool :=
   let Mx := opticom2_matrix preds in
   residual_ok_floor (left_matrix Mx 0 false []) (right_vector Mx vy) raw tol (residual_floor Mx vy).
+
+(* ------------------------------------------------------------------ Opticom option 1 (Garcke), standard combination technique *)
+(* sum_C_matrix_with_alphas AS CODED: the interpolated values alphas_i / alphas_j are indexed with the ONE-DIMENSIONAL indices
+   index_list[i][m] - 1 of the two grid points (not with the point numbers), and all mass factors use levelvec[k] *)
+Definition nthQ (l : list Qc) (i : Z) : Qc := nth (Z.to_nat i) l 0.
+Fixpoint garcke_prod (lk : Z) (k m : nat) (iv jv : list Z) (ai aj : list Qc) : option Qc :=
+  match iv, jv with
+  | i :: iv', j :: jv' =>
+      let im := (i - 1)%Z in let jm := (j - 1)%Z in
+      let f := if (m =? k)%nat then
+                 (if (im =? jm)%Z then Some (pow2z (lk + 1) * nthQ ai jm * nthQ aj jm)
+                  else if (1 <? Z.abs (jm - im))%Z then None
+                  else Some (- pow2z lk * (nthQ ai im * nthQ aj jm)))
+               else
+                 (if (im =? jm)%Z then Some (1 / (pow2z (lk - 1) * Qc3) * nthQ ai im * nthQ aj jm)
+                  else if (1 <? Z.abs (jm - im))%Z then None
+                  else Some (1 / (pow2z (lk - 1) * Qc12) * (nthQ ai im * nthQ aj jm))) in
+      match f with
+      | None => None
+      | Some v => match garcke_prod lk k (S m) iv' jv' ai aj with None => None | Some w => Some (v * w) end
+      end
+  | _, _ => Some 1
+  end.
+Definition garcke_entry (lv : list Z) (ai aj : list Qc) (iv jv : list Z) : Qc :=
+  sumQ (map (fun k => match garcke_prod (nth k lv 0%Z) k 0 iv jv ai aj with Some v => v | None => 0 end) (seq 0 (length lv))).
+(* for i: for j >= i: sum += res; if i != j: sum += res *)
+Fixpoint upper_sum {T} (e : T -> T -> Qc) (pts : list T) : Qc :=
+  match pts with [] => 0 | t :: ts => e t t + (1 + 1) * sumQ (map (e t) ts) + upper_sum e ts end.
+(* compute_regularization_term_opticom: both component solutions interpolated at the points of the grid of the
+   componentwise maximal level vector *)
+Definition level_points (lv : list Z) : list (list Qc) :=
+  cross (map (fun l => map (fun n => qc_of_Z n / pow2z l) (zrange_from 1 (Z.to_nat (num_points l)))) lv).
+Definition garcke_reg (lvi lvj : list Z) (ali alj : list Qc) : Qc :=
+  let lv := map2 Z.max lvj lvi in
+  let pts := level_points lv in
+  upper_sum (garcke_entry lv (predict_uniform lvi ali pts) (predict_uniform lvj alj pts)) (index_list lv).
+(* build_matrix_opticom: entry (i, j), i <= j, mirrored; vector = diagonal *)
+Definition garcke_matrix (grids : list (list Z * list Qc)) (vdata : list (list Qc)) (lam : Qc) : list (list Qc) :=
+  let nv := qc_of_nat (length vdata) in
+  sym_matrix (fun gi gj =>
+                dotQ (predict_uniform (fst gi) (snd gi) vdata) (predict_uniform (fst gj) (snd gj) vdata) * (1 / nv)
+                + (if Qc_eqb lam 0 then 0 else lam * garcke_reg (fst gi) (fst gj) (snd gi) (snd gj))) 0 grids.
+Fixpoint diag_of (M : list (list Qc)) (i : nat) : list Qc :=
+  match M with [] => [] | row :: r => nth i row 0 :: diag_of r (S i) end.
+Definition garcke_vector (M : list (list Qc)) : list Qc := diag_of M 0.
+(* coefficients = lstsq(matrix, vector): certificate on the normal equations of that least-squares problem *)
+Definition opticom1_certified (M : list (list Qc)) (raw : list Qc) (tol : Qc) : bool :=
+  let v := garcke_vector M in
+  residual_ok_floor (left_matrix M 0 false []) (right_vector M v) raw tol (residual_floor M v).
